@@ -250,7 +250,7 @@ func c9LinkCall(link string, cid string, forceOpid string, U map[string]string, 
 	ctx.SetTimeout(d)
 	H := ctx.RequestHeaders()
 	res.callerOp = H["_opid"]
-	want := d / time.Millisecond * time.Millisecond
+	want := wireTimeout(d)
 	var cerr error
 	o := guard(d+20*time.Second, func() { cerr = l.client.Call(ctx, "m", c9Empty{}, &c9Empty{}) })
 	plan.mu.Lock()
